@@ -112,6 +112,22 @@ def make_harness(seed):
             sg = ecm.ProcessSyncGroup(ec, devs)
             arrays = [v for v in sg.__dict__.values()
                       if isinstance(v, (pysym.SByteArray, bytearray))]
+            sizes = [len(a) for a in arrays]
+            # every variable lies inside the shared array (a ctypes array
+            # refuses accesses beyond its end; the model would just grow)
+            spans = []
+            for i, ci in enumerate(spec["instances"]):
+                for n, f in all_vars(spec, ci):
+                    w = 8 if f == "x" else struct.calcsize(f)
+                    pos = devs[i].__dict__.get(n)
+                    E.prove(pos is not None and 0 <= pos and
+                            pos + w <= max(sizes or [0]),
+                            f"a {f} variable lies inside the shared array")
+                    if pos is not None:
+                        spans.append((pos, w, i, n))
+            spans.sort()
+            E.prove(all(a[0] + a[1] <= b[0] for a, b in zip(spans, spans[1:])),
+                    "variables of all devices occupy disjoint bytes")
             memo = {id(a): a for a in arrays}
             memo[id(FakeCtx)] = FakeCtx
             child_sg, child_devs = copy.deepcopy((sg, devs), memo)
@@ -134,6 +150,8 @@ def make_harness(seed):
                         f"a {f} variable written in the group's process is "
                         "read unchanged in the controlling process and no "
                         "other variable changed")
+            E.prove([len(a) for a in arrays] == sizes,
+                    "no access went beyond the end of a shared array")
         finally:
             ecm.get_context = saved
             pysym.SYM_BYTEARRAYS = False
@@ -161,7 +179,7 @@ def worker(seed):
 
 
 def main(tier, replay_file=None):
-    n = 10 if tier == "quick" else 80
+    n = 40 if tier == "quick" else 300
     ck = common.Check(
         "C29", tier, "model_checking", FUNCTIONS,
         bounds=dict(devices=f"{n} seeded device sets (seed base "
